@@ -40,6 +40,9 @@ structure Strict (t : RawTree) : Prop where
   oneParent : ∀ pl cl, (pl, cl) ∈ levelPairs t.hierarchy →
     ∀ p₁ cs₁ p₂ cs₂, (p₁, cs₁) ∈ t.level pl → (p₂, cs₂) ∈ t.level pl →
     ∀ c, c ∈ cs₁ → c ∈ cs₂ → p₁ = p₂
+  /-- every node above the leaf level has at least one child -/
+  childNe : ∀ pl cl, (pl, cl) ∈ levelPairs t.hierarchy →
+    ∀ p cs, (p, cs) ∈ t.level pl → cs ≠ []
   /-- no parent lists a child twice -/
   childNodup : ∀ pl cl, (pl, cl) ∈ levelPairs t.hierarchy →
     ∀ p cs, (p, cs) ∈ t.level pl → cs.Nodup
